@@ -884,4 +884,74 @@ def finderExists (root : Entry) (p : Str) : Except Err Bool :=
   | .error .nodeNotFound => .ok false
   | .error er => .error er
 
+/-! ### the remaining `DSN` functions (`dsn.py:41-110`): `left`, `right`, `shift`, `root`, `parent`, any delimiter -/
+
+/-- Python `l[:k]` -/
+def pySliceTo {α : Type} (l : List α) (k : Int) : List α :=
+  if k ≥ 0 then l.take k.toNat else l.take (l.length - (-k).toNat)
+
+/-- Python `l[k:]` -/
+def pySliceFrom {α : Type} (l : List α) (k : Int) : List α :=
+  if k ≥ 0 then l.drop k.toNat else l.drop (l.length - (-k).toNat)
+
+/-- `DSN.left(origin, counts)`: `elements[0:counts]` re-joined -/
+def dsnLeft (s : Str) (counts : Int) : Str := dsnJoin (pySliceTo (dsnElements s) counts)
+
+/-- `DSN.right(origin, counts)`: `elements[-counts:]` re-joined (`counts = 0` keeps everything: `l[-0:]` is `l[0:]`) -/
+def dsnRight (s : Str) (counts : Int) : Str := dsnJoin (pySliceFrom (dsnElements s) (-counts))
+
+/-- `DSN.shift(origin, skip)` -/
+def dsnShift (s : Str) (skip : Int) : Str :=
+  if skip == 0 then dsnJoin (dsnElements s)
+  else if skip > 0 then dsnJoin (pySliceFrom (dsnElements s) skip)
+  else dsnJoin (pySliceTo (dsnElements s) skip)
+
+/-- `DSN.root(origin)`: `elements[0]` -/
+def dsnRoot (s : Str) : Except Err Str :=
+  match (dsnElements s).head? with
+  | some e => .ok e
+  | none => .error .indexError
+
+/-- `DSN.parent(origin)`: `elements[-2]` -/
+def dsnParent (s : Str) : Except Err Str :=
+  let es := dsnElements s
+  if es.length ≥ 2 then
+    match es[es.length - 2]? with
+    | some e => .ok e
+    | none => .error .indexError
+  else .error .indexError
+
+/-- `origin.split(delimiter)` filtered, for any delimiter string (`str.split('')` raises ValueError) -/
+def dsnElementsBy (delim s : Str) : Except Err (List Str) :=
+  if delim.isEmpty then .error .valueError else .ok ((splitOnStr delim s).filter (fun p => !p.isEmpty))
+
+/-- `delimiter.join(non-empty parts)` -/
+def dsnJoinBy (delim : Str) (parts : List Str) : Str := Str.join delim (parts.filter (fun p => !p.isEmpty))
+
+/-- `DSN.elem_counts(origin, delimiter)` (`str.count('')` is `len + 1`) -/
+def dsnElemCountsBy (delim s : Str) : Nat :=
+  if s.isEmpty then 0
+  else if delim.isEmpty then s.length + 1
+  else (splitOnStr delim s).length - 1 + (if Str.startsWith s delim then 0 else 1)
+
+def dsnLeftBy (delim s : Str) (counts : Int) : Except Err Str :=
+  (dsnElementsBy delim s).map (fun es => dsnJoinBy delim (pySliceTo es counts))
+
+def dsnRightBy (delim s : Str) (counts : Int) : Except Err Str :=
+  (dsnElementsBy delim s).map (fun es => dsnJoinBy delim (pySliceFrom es (-counts)))
+
+def dsnShiftBy (delim s : Str) (skip : Int) : Except Err Str :=
+  (dsnElementsBy delim s).map (fun es =>
+    if skip == 0 then dsnJoinBy delim es
+    else if skip > 0 then dsnJoinBy delim (pySliceFrom es skip)
+    else dsnJoinBy delim (pySliceTo es skip))
+
+def dsnRootBy (delim s : Str) : Except Err Str :=
+  (dsnElementsBy delim s).bind (fun es => match es.head? with | some e => .ok e | none => .error .indexError)
+
+def dsnParentBy (delim s : Str) : Except Err Str :=
+  (dsnElementsBy delim s).bind (fun es =>
+    if es.length ≥ 2 then (match es[es.length - 2]? with | some e => .ok e | none => .error .indexError)
+    else .error .indexError)
+
 end Tranp.AstPath
